@@ -338,7 +338,7 @@ func check(c Case, r *ev.Rec) error {
 			return fmt.Errorf("%s rejected the permitted, supported combination signing %d / crypto %d: %v", p.name, st, et, err)
 		}
 		if destProhibited(st, et) || supported(st, et, true) {
-			r.NonTrivialStr(nil, p.name, fmt.Sprint(st), fmt.Sprint(et))
+			r.NonTrivialStr(map[string]any{"path": p.name, "sig": st, "enc": et, "seed": c.Seed}, p.name, fmt.Sprint(st), fmt.Sprint(et))
 		}
 	}
 	for _, p := range riPaths {
@@ -357,7 +357,7 @@ func check(c Case, r *ev.Rec) error {
 			return fmt.Errorf("%s rejected the permitted, supported combination signing %d / crypto %d: %v", p.name, st, et, err)
 		}
 		if riProhibited(st, et) || supported(st, et, false) {
-			r.NonTrivialStr(nil, p.name, fmt.Sprint(st), fmt.Sprint(et))
+			r.NonTrivialStr(map[string]any{"path": p.name, "sig": st, "enc": et, "seed": c.Seed}, p.name, fmt.Sprint(st), fmt.Sprint(et))
 		}
 	}
 	switch {
@@ -371,7 +371,7 @@ func check(c Case, r *ev.Rec) error {
 	return nil
 }
 
-var prop = &ev.Prop[Case]{Sub: "policy", Quick: 6000, Thorough: 400000,
+var prop = &ev.Prop[Case]{Sub: "policy", Quick: 40000, Thorough: 400000,
 	Gen: func(t *rapid.T) Case {
 		pick := func(label string, known []int) int {
 			switch rapid.IntRange(0, 3).Draw(t, label+"-k") {
